@@ -836,11 +836,29 @@ CONTINUATION_TABLE = [
 ]
 
 
-def rule_continuation(m, rid):
+# conditional-compilation continuation lines (the first line of the statement had a '!$ ' sentinel): the sentinel is blanked, then
+# the ordinary continuation rules apply
+OMP_CONTINUATION_TABLE = [
+    ("!$ & + 2", False, " + 2", False),
+    ("!$& + 2", False, " + 2", False),
+    ("  !$ &z", False, "z", False),
+    ("!$   y + &", False, "     y + ", True),
+    ("!$ & 'a&b' // &", False, " 'a&b' // ", True),
+    ("   & w", False, " w", False),
+]
+
+
+def rule_continuation(m, rid, omp=False):
     from sa import pureeval as PE
-    r = RuleResult(rid, "free-form continuation joining: a trailing '&' continues, only a FIRST-nonblank '&' is the leading marker, and exactly "
-                        "the text between them is contributed (so '&' inside a literal is never taken for a marker)")
-    r.floor = 15
+    import re as _re
+    if omp:
+        r = RuleResult(rid, "a continuation line of a conditional-compilation statement has its '!$' sentinel blanked and is then joined like "
+                            "any continuation line (decided as a table over one iteration of the free-form loop)")
+        r.floor = 5
+    else:
+        r = RuleResult(rid, "free-form continuation joining: a trailing '&' continues, only a FIRST-nonblank '&' is the leading marker, and "
+                            "exactly the text between them is contributed (so '&' inside a literal is never taken for a marker)")
+        r.floor = 15
     f = reader_func(m, "get_source_item")
     # the tail of the continuation loop starts at `i = line.rfind("&")` (or whatever searches the trailing marker)
     loop = tail = None
@@ -856,16 +874,30 @@ def rule_continuation(m, rid):
         r.error("get_source_item: the '&' handling at the end of the free-form continuation loop was not found (anchor changed)")
         return r
     ev = PE.Evaluator({"extract_label": lambda l_: (None, l_), "extract_construct_name": lambda l_: (None, l_)})
+    omp_rx = omp_fn = None
+    if omp:
+        sf = reader_func(m, "set_format")
+        for n in A.body_nodes(sf.node):
+            if isinstance(n, ast.Assign) and A.text(n.targets[0]) == "self._re_omp_sentinel_cont" and isinstance(n.value, ast.Call) \
+                    and A.text(n.value.func) == "re.compile" and isinstance(A.const(n.value.args[0], None), str):
+                omp_rx = _re.compile(A.const(n.value.args[0]), _re.IGNORECASE if "IGNORECASE" in A.text(n.value) else 0)
+        omp_fn = m.method(m.key("FortranReaderBase", RF), "replace_omp_sentinels")
+        if omp_rx is None or omp_fn is None:
+            r.error("the continuation sentinel pattern (self._re_omp_sentinel_cont) or replace_omp_sentinels was not found (anchor changed)")
+            return r
     bad = []
     try:
-        for text, first, want_text, want_cont in CONTINUATION_TABLE:
+        for text, first, want_text, want_cont in (OMP_CONTINUATION_TABLE if omp else CONTINUATION_TABLE):
             r.instances += 1
             lines = [] if first else ["x = 1 + "]
             n0 = len(lines)
             # one whole iteration of the free-form loop on one physical line (comment handling is the identity on these lines)
             me = PE.Obj({"linecount": 7, "f2py_comment_lines": [], "comment_item": lambda *a, **k: ("comment",) + a})
+            if omp:
+                me.fields["_re_omp_sentinel_cont"] = omp_rx
+                me.fields["replace_omp_sentinels"] = lambda l_, rx_: ev.run_function(omp_fn.node, [l_, rx_])
             env = {"line": text, "lines": lines, "lines_append": lines.append, "get_single_line": lambda: "<next>",
-                   "self": me, "endlineno": 0, "startlineno": 0, "had_omp_sentinels": False, "start_index": 0, "qchar": None,
+                   "self": me, "endlineno": 0, "startlineno": 0, "had_omp_sentinels": bool(omp), "start_index": 0, "qchar": None,
                    "handle_inline_comment": lambda l_, n_, q_=None: (l_, q_, False), "put_item": lambda x: None,
                    "have_comment": False, "label": None, "name": None, "is_f2py_directive": False}
             cont = None
